@@ -338,8 +338,15 @@ def opSEQ (args obs : List String) : Option DecOut := do
               | some a, some c => a == c
               | _, _ => false
             (if (res == "ok") == acked then [] else [s!"C04 Send={res} but peer-acknowledged-this-chunk={acked}"]) ++
-            (if res == "ok" && !acked then ["C08 a send was matched with a response that is not the ack for its own chunk"] else []) ++
+            (if res == "ok" && !acked then ["C08 a send was matched with a response that is not the ack for its own chunk",
+                "C09 Send returned nil although the response was not a complete conforming ack for its chunk (a failure while the ack is read must be an error)"] else []) ++
             (if clean && !pre.isEmpty then ["C04 part of an earlier conforming ack was left unread on the connection"] else []) ++
+            -- the wait for the ack gets the configured timeout (50 ms in the harness), counted from when it starts
+            (match (kvGet "dlms" xs).bind String.toInt? with
+             | some ms => if tmo && ms < 25 then
+                 [s!"C04 the read deadline for the ack was armed with only {ms} ms of the configured 50 ms timeout left (time spent before the wait was charged to it)",
+                  s!"C08 a send's wait for its own ack was cut short by time spent before it ({ms} of 50 ms left)"] else []
+             | none => []) ++
             (if tmo && expected == some wire && !(evs.any (·.startsWith "dl")) then ["C04 no read deadline armed before waiting for the ack"] else [])
           else []
         -- C05: transport phase only after a PONG that proves knowledge of the key
